@@ -3,21 +3,38 @@
 package text
 
 import (
+	"fmt"
+
 	"github.com/tsawler/tabula/contentstream"
 	"github.com/tsawler/tabula/core"
 )
 
 func vNoRefs(core.IndirectRef) (core.Object, error) { return core.Null{}, nil }
 
+var vRefMatrix core.Array
+
+func vResolveMatrix(ref core.IndirectRef) (core.Object, error) {
+	if ref.Number == 7 {
+		return vRefMatrix, nil
+	}
+	return nil, fmt.Errorf("no object %d", ref.Number)
+}
+
 // H_C08_form_xobject_matrix: a Form XObject is painted under CTM' = Matrix x CTM inside an implicit q...Q: text inside
 // the form is positioned through the form matrix, and the state after Do is exactly the state before it.
 //
 //symgo:harness prop=C08 kernel=K1-form-xobject real=1
-//symgo:desc outer cm and form /Matrix fully symbolic real matrices; form content "BT /F1 10 Tf 1 0 0 1 7 9 Tm (IN) Tj ET" (concrete, parsed by the real content-stream parser); program: cm, Do, Do again (enumerated: once or twice), then BT Tm Tj: the form's fragment origin is (7,9) x Matrix x CTM each time it is invoked (so the second invocation coincides with the first and is de-duplicated), and the fragment after Do is positioned by the caller's CTM alone (q/Q restore exactly)
+//symgo:desc outer cm and form /Matrix fully symbolic real matrices, /Matrix written directly or given by reference (enumerated); form content "BT /F1 10 Tf 1 0 0 1 7 9 Tm (IN) Tj ET" (concrete, parsed by the real content-stream parser); program: cm, Do, Do again (enumerated: once or twice), then BT Tm Tj: the form's fragment origin is (7,9) x Matrix x CTM each time it is invoked (so the second invocation coincides with the first and is de-duplicated), and the fragment after Do is positioned by the caller's CTM alone (q/Q restore exactly)
 func H_C08_form_xobject_matrix() {
 	ctm, fm := vAnyMat(), vAnyMat()
 	// the form's content stream is concrete text (it goes through the real content-stream parser)
 	form := &core.Stream{Dict: core.Dict{"Subtype": core.Name("Form"), "Matrix": core.Array(vMatOps(fm))}, Data: []byte("BT /F1 10 Tf 1 0 0 1 7 9 Tm (IN) Tj ET")}
+	resolve := vNoRefs
+	if vAnyIntIn(0, 1) == 1 { // the form's /Matrix is given by reference
+		vRefMatrix = core.Array(vMatOps(fm))
+		form.Dict["Matrix"] = core.IndirectRef{Number: 7}
+		resolve = vResolveMatrix
+	}
 	res := core.Dict{"XObject": core.Dict{"Fm1": form}}
 	times := vAnyIntIn(1, 2)
 	ops := []contentstream.Operation{vOp("cm", vMatOps(ctm)...)}
@@ -27,7 +44,7 @@ func H_C08_form_xobject_matrix() {
 	t := vAnyMat()
 	ops = append(ops, vOp("BT"), vOp("Tf", core.Name("F1"), core.Real(10)), vOp("Tm", vMatOps(t)...), vOp("Tj", core.String("OUT")), vOp("ET"))
 	e := NewExtractor()
-	e.SetResourceContext(res, vNoRefs)
+	e.SetResourceContext(res, resolve)
 	frags, err := e.Extract(ops)
 	vAssert("no-error", err == nil)
 	// a second invocation paints the same text at exactly the same place, which the extractor's
